@@ -5,6 +5,7 @@ import (
 	"fmt"
 	"sort"
 	"strings"
+	"time"
 )
 
 // jsonPaths lists every path (as a slice of keys / indices) of a JSON value.
@@ -255,6 +256,7 @@ func C13Scenario() *Scenario {
 		var parentKey string
 		var envOps func(b *EnvBudget) []EnvOp
 		var liveParents func(w *World) []ParentRef
+		var discoveryGVs []string
 		if decorator {
 			ds := NewDecoratorSetup(w, DGenOpts{MaxDecorators: 1, MaxWorkers: 2})
 			sig, progs, childKey, parentKey = copySig(ds.Sig), ds.Progs, "attachments", "object"
@@ -290,6 +292,14 @@ func C13Scenario() *Scenario {
 				w.InlineUnsyncedHooks = true
 				cs.Sig["customize"] = "true"
 				w.Cfg["customize"] = "true"
+			}
+			if t.Pick(3, "discovery") == 2 {
+				// discovery is refreshed every 2 s, and the document of one group-version is
+				// unavailable now and then: the resource map loses and regains it while syncs
+				// that need it are under way (they must fail and be retried, not crash)
+				cs.Opts.Proc.Discovery = 2 * time.Second
+				discoveryGVs = []string{"/v1", "kids.example.com/v1"}
+				w.Cfg["discoveryOutages"] = "true"
 			}
 			sig, progs, childKey, parentKey = copySig(cs.Sig), cs.Progs, "children", "parent"
 			finalCheck = func(w *World, pokeStep int) *Violation { return c01Check(w, cs.Cfg, cs.Opts, cs.Parents, pokeStep, 0) }
@@ -361,7 +371,13 @@ func C13Scenario() *Scenario {
 			return s2
 		}
 		b := &EnvBudget{Left: 3 + t.Pick(5, "envbudget")}
-		w.EnvOps = func(w *World) []EnvOp { return append(envOps(b), GCOps(w)...) }
+		w.EnvOps = func(w *World) []EnvOp {
+			ops := append(envOps(b), GCOps(w)...)
+			if len(discoveryGVs) > 0 {
+				ops = append(ops, DiscoveryOutages(w, b, discoveryGVs)...)
+			}
+			return ops
+		}
 		pol := &Policy{Name: "hostile", Shuffle: t.Pick(2, "shuffle") == 1, EnvProb: 80, AdvanceProb: 40}
 		pokeStep := 0
 		fair := &Policy{Name: "fair+gc", EnvWhenIdle: true}
@@ -371,13 +387,14 @@ func C13Scenario() *Scenario {
 		}
 		w.Stages = []Stage{
 			{Name: "hostile", Policy: pol, Steps: 150 + 100*t.Pick(3, "len")},
-			{Name: "recover", Quiet: true, MaxSteps: 4000, Policy: fair, OnBudget: budget, Do: func(w *World) {
+			{Name: "recover", Quiet: true, MaxSteps: 4000 + 20000*min(1, len(discoveryGVs)), Policy: fair, OnBudget: budget, Do: func(w *World) {
 				hostile = false
 				b.Left = 0
+				w.DiscoveryDown = nil
 				w.EnvOps = func(w *World) []EnvOp { return GCOps(w) }
 				pokeAll(w)
 			}},
-			{Name: "finish", Quiet: true, MaxSteps: 3000, Policy: fair, OnBudget: budget,
+			{Name: "finish", Quiet: true, MaxSteps: 3000 + 20000*min(1, len(discoveryGVs)), Policy: fair, OnBudget: budget,
 				Do: func(w *World) { pokeStep = w.step; pokeAll(w) },
 				Check: func(w *World) *Violation {
 					// rejected answers cause no write
